@@ -809,6 +809,26 @@ func (c *Ctx) builtin(name string, args []Value, cc *ssa.CallCommon) Value {
 			}
 		}
 		return nil
+	case "clear":
+		switch x := args[0].(type) {
+		case *MapV:
+			if x == nil {
+				return nil
+			}
+			if name, ok := c.watchMaps[x]; ok && len(x.Order) > 0 {
+				c.writes = append(c.writes, fmt.Sprintf("%s: map clear @ %s", name, c.where()))
+			}
+			x.M = map[string]*mapEntry{}
+			x.Order = nil
+			return nil
+		case SliceV:
+			if st, ok := cc.Args[0].Type().Underlying().(*types.Slice); ok {
+				for i := 0; i < x.Len; i++ {
+					x.B.Store(c, x.Off+i, c.zero(st.Elem()))
+				}
+				return nil
+			}
+		}
 	case "min", "max":
 		T := cc.Args[0].Type()
 		if b, ok := T.Underlying().(*types.Basic); !ok || b.Info()&(types.IsInteger|types.IsString) == 0 {
